@@ -463,3 +463,78 @@ Qed.
 Example sphere_centre_hyps : let Rc := -80 in let w := 80 in
   Rc <> 0 /\ 0*0 + 0*0 + 1*1 = 1 /\ w*w = Rc*Rc /\ w * 1 * Rc < 0.
 Proof. cbv zeta. repeat split; lra. Qed.
+
+(** ** 2'. the same, with the hit point delivered by the distance kernel itself: since the kernel discards roots off
+    the vertex sheet (conic_distance_sound_sheet), "the hit lies on the vertex sheet" is no longer a hypothesis.
+    Covers the convex hyperboloid with the object at its far focus and a virtual image (hyperboloid_far). *)
+Section FromFocus.
+  Variables Rc e L M N t : R.
+  Hypothesis HR : Rc <> 0.
+  Hypothesis He1 : 1 + e <> 0.
+  Hypothesis He2 : 1 - e <> 0.
+  Hypothesis Hd : L*L + M*M + N*N = 1.
+  Hypothesis Ha : - (e*e) * (N*N) + L*L + M*M + N*N <> 0.       (* not along an asymptote direction *)
+  Let f1 := focus Rc e.
+  Let f2 := focus Rc (- e).
+  Hypothesis Hdist :
+    k_std_distance XOps (Fin (- (e*e))) (Fin N) (Fin L) (Fin M) (Fin f1) (Fin 0) (Fin 0) (Fin Rc) = Fin t.
+  Let px := 0 + t*L. Let py := 0 + t*M. Let pz := f1 + t*N.
+  Hypothesis Hrad : 1 - (1 + - (e*e)) * (px*px + py*py) / (Rc*Rc) <> 0.   (* not on the equator of an ellipsoid *)
+  Let rho1 := e*pz + f1.
+  Let rho2 := f2 - e*pz.
+  Hypothesis H1 : rho1 <> 0.
+  Hypothesis H2 : rho2 <> 0.
+
+  Theorem conic_mirror_from_focus :
+    on_vertex_sheet Rc (- (e*e)) px py pz /\ 0 <= t /\
+    exists tau, (tau = 1 \/ tau = -1) /\ t = tau * rho1 /\
+      (let '(nx, ny, nz) := k_std_normal ROps px py Rc (- (e*e)) in
+       let '(L', M', N') := k_reflect ROps nx ny nz L M N in
+       unit3 L' M' N' /\ through_axis_point px py pz L' M' N' (tau*rho2) f2) /\
+      (1 - e*e) * (t + tau*rho2) = tau * (2*Rc).
+  Proof.
+    destruct (conic_distance_sound_sheet _ _ _ _ _ _ _ _ _ Hdist) as (Hq & Hfs).
+    destruct (Hfs Ha) as (Ht & Hsh). fold px py pz in Hq, Hsh.
+    destruct (sheet_is_sag_sheet px py pz Rc (- (e*e)) HR Hq Hsh) as (Hr0 & Hsag).
+    assert (Hsheet : on_vertex_sheet Rc (- (e*e)) px py pz).
+    { unfold on_vertex_sheet, on_conic. unfold quadric in Hq. repeat split; [lra|lra|exact Hsag]. }
+    split; [exact Hsheet|]. split; [exact Ht|].
+    assert (Hf1 : f1 * (1 + e) = Rc) by (unfold f1, focus; field; assumption).
+    assert (Hf2 : f2 * (1 - e) = Rc) by (unfold f2, focus; field; lra).
+    assert (Hq' : px*px + py*py + (1 - e*e)*(pz*pz) - 2*Rc*pz = 0) by (unfold quadric in Hq; lra).
+    assert (D1 := dist_focus1 Rc e f1 f2 px py pz Hf1 Hf2 Hq'). fold rho1 in D1.
+    assert (Ht2 : rho1*rho1 = t*t).
+    { rewrite <- D1. unfold px, py, pz. transitivity (t*t*(L*L+M*M+N*N)); [ring|rewrite Hd; ring]. }
+    assert (Ht0 : t <> 0) by (intro E; rewrite E in Ht2; apply H1; nra).
+    assert (Hcase : rho1 = t \/ rho1 = - t) by (assert ((rho1 - t)*(rho1 + t) = 0) by nra; nra).
+    set (tau := if Req_EM_T rho1 t then 1 else -1).
+    assert (Htau : tau = 1 \/ tau = -1) by (unfold tau; destruct (Req_EM_T rho1 t); auto).
+    assert (Et : t = tau * rho1).
+    { unfold tau. destruct (Req_EM_T rho1 t) as [E|E]; [lra|]. destruct Hcase; [contradiction|lra]. }
+    exists tau. split; [exact Htau|]. split; [exact Et|].
+    assert (Ht2' : tau*tau = 1) by (destruct Htau as [-> | ->]; ring).
+    generalize (conic_mirror_stigmatic Rc e px py pz tau He1 He2 Hsheet Htau H1 H2).
+    fold f1 f2. fold rho1 rho2.
+    assert (Ex : forall v, tau * (t * v) / rho1 = v).
+    { intros v. rewrite Et at 1. transitivity ((tau*tau)*v); [field; assumption|rewrite Ht2'; ring]. }
+    replace (tau * px / rho1) with L by (unfold px; rewrite <- (Ex L) at 1; f_equal; ring).
+    replace (tau * py / rho1) with M by (unfold py; rewrite <- (Ex M) at 1; f_equal; ring).
+    replace (tau * (pz - f1) / rho1) with N by (unfold pz; rewrite <- (Ex N) at 1; f_equal; ring).
+    intros (_ & _ & _ & _ & Hrefl & Hsum). split; [exact Hrefl|].
+    rewrite Et. rewrite <- Hsum. ring.
+  Qed.
+End FromFocus.
+
+(** the hypotheses are satisfiable: the regression input of finding conic-wrong-sheet (e = -3/2 puts f1 at the far focus) *)
+Example conic_mirror_from_focus_hyps :
+  let Rc := 11 in let e := - (3/2) in let t := 55 in
+  k_std_distance XOps (Fin (- (e*e))) (Fin (4/5)) (Fin 0) (Fin (3/5)) (Fin (focus Rc e)) (Fin 0) (Fin 0) (Fin Rc) = Fin t /\
+  - (e*e) * (4/5*(4/5)) + 0*0 + 3/5*(3/5) + 4/5*(4/5) <> 0 /\
+  e * (focus Rc e + t*(4/5)) + focus Rc e <> 0 /\ focus Rc (- e) - e * (focus Rc e + t*(4/5)) <> 0.
+Proof.
+  cbv zeta. unfold focus.
+  replace (- (- (3/2) * - (3/2))) with (-9/4) by field.
+  replace (11 / (1 + - (3/2))) with (-22) by field.
+  replace (11 / (1 + - - (3/2))) with (22/5) by field.
+  split; [exact std_distance_far_focus_regression|]. repeat split; lra.
+Qed.
